@@ -57,7 +57,7 @@ CLAIMED = {
          'adjacent-duplicate removal is exactly that; the only escape is a corner re-entry that would diverge (characterised, never observed). The float run taking the same decisions and finiteness of control points are measured (bit-exact correspondence of the whole fitter incl. its call log).',
          'two-layer hand model (recursion skeleton over an abstract core + bit-faithful numeric core) with bit-exact correspondence; induction on fuel; search over all families of the quantifier', '4/C14'),
  'C20': ('Proved over R for all control points and all fuel, about generated S/D tables and a hand model of minDist tied by exact correspondence (recorded S values, call counts): S(u,v) IS the squared distance |P(u)-Q(v)|^2 for all nine kind pairs; a returned alpha is S at some point of [0,1]^2 (and the reported parameters lie in [0,1]); hence the distance is realised, >= 0, >= the true minimum and <= the maximum; '
-         'the reported segments of a path pair belong to the paths; and the recursion TERMINATES: over R it never nests deeper than 76 levels for any pair of segments, so curveDistance with fuel >= 80 always returns a realised distance (more fuel does not change it). Float recursion depth and accuracy near distance 0 are measured.',
+         'the reported segments of a path pair belong to the paths; and the recursion TERMINATES: over R it never nests deeper than 76 levels for any pair of segments, so curveDistance with fuel >= 80 always returns a realised distance (more fuel does not change it), and the same is proved for the binary64 instance for finite coordinates up to 2^400 (fuel 81). Float accuracy near distance 0 is measured.',
          'translator-regenerated S and D(r,k) (memo stripped, binomials run from source) proved equal to the squared distance by field; hand model of the branch-and-bound with threaded bestAlpha, induction on fuel; brute-force reference search', '4/C20'),
  'C12': ('Proved on a hand model of the glue around pyclipper, tied by exact correspondence on recorded AddPath/Execute traffic: the integer polygons handed to Clipper are exactly the truncated x100 start points of the flattened, pre-split outlines with subject = receiver and clip = argument and the operation as named; in polygon mode every result path is the closed chain of all n edges of its polygon at 1/100 scale; '
          'under the stated even-odd hypothesis on Clipper (a Section premise, spot-checked on every recorded run) the result\'s even-odd interior is the Boolean combination of the flattened inputs\' interiors; the inputs are not rebound. Clipper itself, the 2-unit flattening deviation and the two area identities are measured by the search (probe points, exact even-odd areas).',
